@@ -73,6 +73,9 @@ def make_case(rng, quick=True, force=None):
                use_coslat=use_coslat, pole=bool(use_coslat and nlat and nlat > 1 and rng.random() < 0.4), weights=None if weights is None else weights.tolist(), solver=solver,
                random_state=seed, spectrum=kind, scale=scale, cplx=cplx, k=None,
                X_re=np.real(X).tolist(), X_im=(np.imag(X).tolist() if cplx else None))
+    if cls in ("EOF", "ComplexEOF") and n >= 6 and rng.random() < 0.2:
+        # one or two entirely missing samples: they are deleted before the decomposition, N is the number of samples that are left
+        cfg["missing_rows"] = sorted(set(int(x) for x in rng.integers(0, n, size=int(rng.integers(1, 3)))))
     if cls == "ExtendedEOF":
         cfg["tau"] = int(rng.integers(1, 3))
         cfg["embedding"] = int(rng.integers(2, 4))
@@ -98,6 +101,9 @@ def build_input(cfg):
     X = np.asarray(cfg["X_re"], dtype=float)
     if cfg.get("X_im") is not None:
         X = X + 1j * np.asarray(cfg["X_im"], dtype=float)
+    if cfg.get("missing_rows"):
+        X = X.copy()
+        X[list(cfg["missing_rows"])] = np.nan
     if cfg.get("use_coslat"):
         nlat, nlon = cfg["nlat"], cfg["nlon"]
         lats = lat_values(cfg)
@@ -142,6 +148,8 @@ def independent_preprocess(cfg):
     X = np.asarray(cfg["X_re"], dtype=float)
     if cfg.get("X_im") is not None:
         X = X + 1j * np.asarray(cfg["X_im"], dtype=float)
+    if cfg.get("missing_rows"):
+        X = np.delete(X, list(cfg["missing_rows"]), axis=0)
     n, p = X.shape
     Y = X.copy()
     if cfg["center"]:
